@@ -61,9 +61,24 @@ def delWalk (samePP : Nat → Bool) : Nat → Option K → List (K × Bool) → 
         if safeToDelete prev next (samePP i) then delWalk samePP (i + 1) prev rest          -- Chunk::Delete(pc)
         else (c, p) :: delWalk samePP (i + 1) (some c) rest
       else
-        -- next to a comment: only the count is reduced to 1
-        ((if n > 1 then K.nl 1 else c), p) :: delWalk samePP (i + 1) (some (if n > 1 then K.nl 1 else c)) rest
+        -- next to a comment: only the count is reduced to 1 -- unless the newline chunk touches a line of a region
+        let c' := if n > 1 ∧ prev ≠ some K.ign ∧ next ≠ some K.ign then K.nl 1 else c
+        (c', p) :: delWalk samePP (i + 1) (some c') rest
     | _ => (c, p) :: delWalk samePP (i + 1) (some c) rest
+
+/-- the loop before the repair of the comment branch (the count was reduced whatever the neighbours were) -/
+def delWalkOld (samePP : Nat → Bool) : Nat → Option K → List (K × Bool) → List (K × Bool)
+  | _, _, [] => []
+  | i, prev, (c, p) :: rest =>
+    let next := (rest.head?).map Prod.fst
+    match c with
+    | .nl n =>
+      if (!isCmtOpt prev && !isCmtOpt next) || isNlOpt prev || isNlOpt next then
+        if safeToDelete prev next (samePP i) then delWalkOld samePP (i + 1) prev rest
+        else (c, p) :: delWalkOld samePP (i + 1) (some c) rest
+      else
+        ((if n > 1 then K.nl 1 else c), p) :: delWalkOld samePP (i + 1) (some (if n > 1 then K.nl 1 else c)) rest
+    | _ => (c, p) :: delWalkOld samePP (i + 1) (some c) rest
 
 def keepProtected (l : List (K × Bool)) : List K := (l.filter (·.2)).map (·.1)
 
